@@ -260,6 +260,7 @@ def run(chk):
     chk.section("trace_call", lambda: trace_call_obligations(chk))
     chk.section("return-shapes", lambda: return_shapes(chk))
     chk.section("value-semantics", lambda: value_semantics(chk))
+    chk.section("comptime-parameters", lambda: comptime_parameters(chk))
 
 
 REPLAY_STRUCT_METHOD = r'''
@@ -833,3 +834,56 @@ def value_semantics(chk):
                                func="guppylang_internals.tracing.unpacking:update_packed_value")
         if res.get("violates"):
             o.replay.update({"script": REPLAY_VALUES, "input": {"case": case}})
+
+
+REPLAY_CT_PARAM = r'''
+import tempfile, importlib.util, os, sys, shutil
+from guppylang_internals.error import GuppyError, GuppyComptimeError
+src = """from guppylang import guppy
+from guppylang.std.builtins import comptime
+@guppy
+def ct_int(n: int @comptime) -> int:
+    return n + 1
+@guppy.comptime
+def traced_dynamic(x: int) -> int:
+    return ct_int(x)
+@guppy
+def regular_dynamic(x: int) -> int:
+    return ct_int(x)
+@guppy.comptime
+def traced_static() -> int:
+    return ct_int(3)
+@guppy
+def regular_static() -> int:
+    return ct_int(3)
+"""
+d = tempfile.mkdtemp(dir=os.environ.get("TMPDIR", "/var/tmp")); fn = os.path.join(d, "replay_c21p.py"); open(fn, "w").write(src)
+spec = importlib.util.spec_from_file_location("replay_c21p", fn); m = importlib.util.module_from_spec(spec); sys.modules["replay_c21p"] = m
+spec.loader.exec_module(m)
+res = {}
+for name in ("regular_dynamic", "traced_dynamic", "regular_static", "traced_static"):
+    try:
+        getattr(m, name).compile_function(); res[name] = "compiled"
+    except (GuppyError, GuppyComptimeError):
+        res[name] = "rejected"
+    except Exception as ex:
+        res[name] = "crash:" + type(ex).__name__
+shutil.rmtree(d, ignore_errors=True)
+print(json.dumps({"violates": res["regular_dynamic"] != res["traced_dynamic"] or res["regular_static"] != res["traced_static"], "evaluations": 4, "observed": res,
+                  "required": "a run-time value for a @comptime parameter is a Guppy error in both modes, a Python constant is accepted in both", "detail": str(res)}))
+'''
+
+
+def comptime_parameters(chk):
+    """BOUNDED: a call passing a run-time (traced) value for a @comptime parameter is rejected with a Guppy error in a
+    comptime body as in a regular one (not an interpreter crash), a Python constant is accepted in both."""
+    import json
+    from pyvc.report import run_replay
+    res = run_replay(REPLAY_CT_PARAM, {}, chk.repo, timeout=900)
+    if "evaluations" not in res:
+        chk.undecided("bounded:comptime-parameter-arguments", "oracle run failed: " + json.dumps(res)[:600])
+        return
+    o = chk.bounded_result("bounded:comptime-parameter-arguments:run-time-value-rejected/constant-accepted-in-both-modes", not res.get("violates"), res["evaluations"], detail=res.get("detail"),
+                           witness=res.get("observed") if res.get("violates") else None, func="guppylang_internals.tracing.function:trace_call")
+    if res.get("violates"):
+        o.replay.update({"script": REPLAY_CT_PARAM, "input": {}})
